@@ -350,6 +350,12 @@ func execTree(c *fw.Ctx, cs c15Case, abstract *xmltree.Node) {
 			r.report("capture", "child count", fmt.Sprintf("%d child elements captured, document has %d", len(w.Raw), len(kids)), "any-children", "", "")
 		} else {
 			for i := range w.Raw {
+				if !wideSample(i, len(kids)) {
+					// very wide elements: the children in between are covered by
+					// the checks of the root and of the container only
+					r.checkXMLName("any-child", &w.Raw[i], kids[i])
+					continue
+				}
 				c.Observe("capture", "any-child", 1)
 				r.checkRaw("any-child", &w.Raw[i], kids[i])
 			}
@@ -624,6 +630,7 @@ func execResponse(c *fw.Ctx, cs c15Case, abstract *xmltree.Node) {
 	propstats := r.t0.All(davNS, "propstat")
 	c.Distinct(fmt.Sprintf("response|ps=%d|%s", len(propstats), strings.Join(r.ld.features(), ",")))
 	done := map[string]bool{}
+	var present []presentProp
 	for _, sp := range propSpecs {
 		if done[sp.Name] {
 			continue
@@ -653,6 +660,84 @@ func execResponse(c *fw.Ctx, cs c15Case, abstract *xmltree.Node) {
 		}
 		c.Observe("decodeprop", "compared", 1)
 		r.decodeVsStandalone("decodeprop", sp, sub, func(v interface{}) error { return resp.DecodeProp(v) })
+		present = append(present, presentProp{sp, sub})
+	}
+	r.checkDecodePropMulti(&resp, present)
+}
+
+type presentProp struct {
+	sp  *typeSpec
+	sub *xmltree.Node
+}
+
+// checkDecodePropMulti: DecodeProp takes any number of typed values. Every
+// one of them is a typed value decoded from a captured raw value, so each
+// must come out as the property element decoded on its own does, up to and
+// including the first one whose direct decoding fails (DecodeProp must then
+// fail too; what it leaves in that value and in later ones is not compared).
+// Sequences: every pair of neighbours in both orders, and all typed
+// properties present at once.
+func (r *run) checkDecodePropMulti(resp *internal.Response, present []presentProp) {
+	if len(present) < 2 {
+		return
+	}
+	var seqs [][]presentProp
+	for i := 0; i+1 < len(present); i++ {
+		seqs = append(seqs, []presentProp{present[i], present[i+1]}, []presentProp{present[i+1], present[i]})
+	}
+	if len(present) > 2 {
+		seqs = append(seqs, present)
+	}
+	for _, seq := range seqs {
+		vals := make([]interface{}, len(seq))
+		names := make([]string, len(seq))
+		for i, pp := range seq {
+			vals[i] = pp.sp.New()
+			names[i] = pp.sp.Name
+		}
+		capture := "DecodeProp(" + strings.Join(names, ", ") + ")"
+		var errR error
+		if p, pv, st := fw.Guard(func() { errR = resp.DecodeProp(vals...) }); p {
+			r.report("decodeprop-multi", "panic "+fw.PanicSite(st), fmt.Sprintf("DecodeProp with %d values panicked: %v", len(vals), pv), capture, "", st)
+			return
+		}
+		var errD error
+		bad := false
+		for i, pp := range seq {
+			direct := pp.sp.New()
+			if errD = xml.Unmarshal(renderPlain(pp.sub), direct); errD != nil {
+				break
+			}
+			if d := eqValue(reflect.ValueOf(vals[i]), reflect.ValueOf(direct), ""); d != "" {
+				pos := "first value"
+				if i > 0 {
+					pos = "later value"
+				}
+				if errR != nil {
+					// DecodeProp failed although everything up to here decodes
+					// directly: reported below as an error-ness difference
+					break
+				}
+				r.c.Observe("decodeprop_multi", "value differs", 1)
+				r.report("decodeprop-multi", pos+" differs", fmt.Sprintf("value %d of %d (%s) obtained through one DecodeProp call differs from the property decoded on its own at %s", i+1, len(seq), pp.sp.Name, d), capture,
+					fmt.Sprintf("via DecodeProp: %+v\ndirect: %+v", vals[i], direct), d)
+				bad = true
+				break
+			}
+		}
+		switch {
+		case bad:
+		case errR != nil && errD == nil:
+			r.c.Observe("decodeprop_multi", "only DecodeProp fails", 1)
+			r.report("decodeprop-multi", "error only via DecodeProp", fmt.Sprintf("DecodeProp with %d values failed (%v), each property decodes on its own", len(seq), errR), capture, "", errR.Error())
+		case errR == nil && errD != nil:
+			r.c.Observe("decodeprop_multi", "only direct decoding fails", 1)
+			r.report("decodeprop-multi", "error only directly", fmt.Sprintf("DecodeProp with %d values succeeded, decoding one of the properties on its own fails (%v)", len(seq), errD), capture, "", errD.Error())
+		case errR != nil:
+			r.c.Observe("decodeprop_multi", fmt.Sprintf("%d values: both fail", len(seq)), 1)
+		default:
+			r.c.Observe("decodeprop_multi", fmt.Sprintf("%d values: all equal to the properties decoded on their own", len(seq)), 1)
+		}
 	}
 }
 
@@ -692,6 +777,12 @@ var fixedDocs = []string{
 	`<a:x xmlns:a="b" xmlns:b="b"><a:y b:k="1"/></a:x>`,
 }
 
+// fixedTyped: small container documents, run by every shard first.
+var fixedTyped = []c15Case{
+	{Kind: "response", Doc: `<D:response xmlns:D="DAV:"><D:href>/a</D:href><D:propstat><D:prop><D:displayname>n</D:displayname><D:getetag>"e"</D:getetag></D:prop><D:status>HTTP/1.1 200 OK</D:status></D:propstat></D:response>`},
+	{Kind: "response", Doc: `<response xmlns="DAV:"><href>/a</href><propstat><prop><getcontentlength>7</getcontentlength><resourcetype><collection/></resourcetype><getetag>"e"</getetag></prop><status>HTTP/1.1 200 OK</status></propstat></response>`},
+}
+
 func c15Run(c *fw.Ctx) {
 	// first of all: the first typed decode of this process decides what a
 	// process-wide table keyed too coarsely would remember
@@ -702,10 +793,15 @@ func c15Run(c *fw.Ctx) {
 		exec(c, c15Case{Kind: "tree", Doc: d}, nil)
 		c.Observe("universe", "fixed documents (run by every shard)", 1)
 	}
+	for _, cs := range fixedTyped {
+		exec(c, cs, nil)
+		c.Observe("universe", "fixed documents (run by every shard)", 1)
+	}
 	for _, cs := range fixedReuse {
 		execReuse(c, cs, nil)
 	}
 	runDeep(c)
+	runWide(c)
 	n := c.Pick(20000, 1000000)
 	for i := 0; i < n; i++ {
 		if !c.Mine(i) {
@@ -778,6 +874,10 @@ func init() {
 			"Typed documents for every exported element type of package internal and mirrors of the caldav/carddav property shapes: raw.Decode vs xml.Unmarshal; Prop.Get / Prop.Decode / Response.DecodeProp vs the property element decoded on its own. " +
 			"Deep family (the statement says 'for every nesting depth'): chains, chains with siblings before and after the deep child at every level, nested caldav comp-in-comp and DAV prop/resourcetype/response/multistatus/propertyupdate containers holding a deep property, " +
 			"at EVERY depth 1..72 and at 96, 127-130, 255-258, 511, 513, 1000, in a plain and in random lexical forms, plus random deep trees (depth 10..300); the small fixed ones are run by every shard first. " +
+			"Wide family (no clause of the statement bounds breadth): 6..5000 sibling elements around every power of two (with text and comments between them, a prefix redeclaration in the middle, a default undeclaration at a third, a default-namespace child last), " +
+			"Prop / ResourceType / Response / MultiStatus / component-set containers with that many members (typed properties first, in the middle and last), elements with 4..1000 attributes, character data / comment / attribute-value runs up to 200000 bytes; " +
+			"children of elements with more than 300 child elements are checked one by one at sampled positions (first, last, around the powers of two), all of them through the root and the container. " +
+			"Response.DecodeProp is also called with several values at once (neighbouring typed properties in both orders, all present ones): each must equal the property decoded on its own up to the first one whose direct decoding fails. " +
 			"Reuse sequences: 2 or 3 documents captured one after the other into ONE variable (xml.Unmarshal, Decoder.Decode, DecodeElement, a struct field, a single ',any' field of a wrapper decoded repeatedly), a value copy kept after each capture " +
 			"(assignment, slice append, pointer dereference) with the next document having fewer, as many and more children; every kept copy is observed at copy time and again at the end (token stream, Marshal output, Decode results must not change). " +
 			"distinct_nontrivial counts distinct (case kind, typed element or child count, set of namespace/lexical features present, depth).",
